@@ -80,7 +80,7 @@ func Run(c *vl.Ctx) {
 	// operation sequences over one shared state, without the constructs the wasm back end rejects
 	// (closures, results); quick: single operations and pairs, thorough: triples as well
 	// (pairs in both tiers: every wasm program costs two process starts; the triples are C01's)
-	cases = append(cases, c01.SeqWithout(true, "closure", "catch", "catch-neg", "x=par(x)")...)
+	cases = append(cases, c01.SeqWithout(true, "closure", "closure2", "catch", "catch-neg", "x=par(x)")...)
 	if f := os.Getenv("VERIF_FILTER"); f != "" {
 		var l []*prog.Case
 		for _, k := range cases {
